@@ -586,12 +586,13 @@ def _unjudged_mutations(res, ctx):
                     continue
                 seen.add(key)
                 res.inst(sample={"public_entry": fpath, "effect": e.kind, "in": chain[0], "judged_by_a_row": ok}, func=chain[0])
-                if ok:
-                    res.ok()
-                else:
-                    res.fail(chain[0], "unjudged-mutation:" + e.kind.lower(), "%s (reached from the public %s) performs %s on a vector, and no row of the Vec model covers "
-                             "this function: the operation is outside everything these checks decide" % (chain[0], fpath, e.kind), span=span_of_effect(e),
-                             kind="coverage-lost")
+                res.ok()
+                if not ok:
+                    # an operation the Vec model has no row for (a new mutator): not an alarm - it is judged by the operation-independent rules only
+                    # (R-REPINV slot accounting, R-ORDER typestates, R-BOUNDS, R-OVERLAP, R-UNITS, R-TYPEGUARD, R-PROVENANCE, R-ARITH); recorded in the evidence
+                    note = "no model row: %s performs %s (reached from %s); decided by the operation-independent rules only" % (chain[0], e.kind, fpath)
+                    if note not in res.notes and len(res.notes) < 40:
+                        res.notes.append(note)
 
 
 def _splice_row(row, I, sh, start, OL, E, st, fl, F, roles):
@@ -1054,8 +1055,24 @@ def _backend_growth_rows(res, ctx, arms):
         for tt, I in arms(p) if p else []:
             row = Row(res, ctx, "build_with_size", p, tt, I)
             ent = [e for e in I.all_effects(("ENTER",)) if e["callee"].endswith("::resize")]
-            if len(ent) != 1 or as_poly(ent[0]["args"][1]) != Poly.atom(("param", 3)):
-                row.fail("with_capacity must resize the fresh storage to exactly the requested capacity")
+            cap = Poly.atom(("param", 3))
+
+            def enough(r):
+                """the returned storage is known to hold the requested capacity: a dominating `capacity <= size()` of a fixed-capacity backend"""
+                caps = {a for ff in r["facts"] if ff[0] == "ge0" for a in ff[1].atoms() if isinstance(a, tuple) and a and a[0] in ("CAP", "cparam")}
+                cands = [Poly.atom(c) for c in caps]
+                v = r["value"]
+                if isinstance(v, tuple) and v and v[0] == "tree":
+                    sz = dict(v[1]).get(("size",))
+                    if isinstance(sz, Poly):
+                        cands.append(sz)
+                return any(implies(r["facts"], cmp_fact("Le", cap, c)) for c in cands)
+            rets_ = I.all_effects(("RETURN",))
+            if not ent and rets_ and all(enough(r) for r in rets_):
+                pass
+            elif len(ent) != 1 or as_poly(ent[0]["args"][1]) != cap:
+                row.fail("with_capacity must resize the fresh storage to exactly the requested capacity (or, on a fixed-capacity backend, establish "
+                         "capacity <= size() before returning it)")
             else:
                 for r in I.all_effects(("RETURN",)):
                     if not every_path_to(I, r.gid, lambda g: g == ent[0].gid):
